@@ -104,7 +104,7 @@ class Session(Relation):
         return run_hist(inp)
 
     def term(self, inp, obs):
-        if obs['exc_init']:
+        if obs['exc_init'] or not session.limits_passed_through(obs):
             return 'false'
         return '(c_session %s %s %s %s)' % (lpcommon.head(inp), C.cbool(inp['bf']), C.cz(obs['t0']),
                                            C.clist([session.crec(r) for r in obs['ops']]))
